@@ -54,6 +54,29 @@ def discharge(ob, timeout_ms, use_cvc5=True):
             else:
                 backend = 'z3+cvc5'
                 reason += ' | cvc5: ' + out[:200]
+    if verdict == 'unknown':
+        # refutation attempt: drop the quantified assumptions (a weaker path condition); a model found this way is only
+        # a candidate — it counts as a violation only if the native replay reproduces the contract breach
+        from .interp import has_quantifier
+        s2 = z3.Solver()
+        s2.set('timeout', min(timeout_ms, 5000))
+        for f in ob.pc:
+            if not has_quantifier(f):
+                s2.add(f)
+        s2.add(z3.Not(ob.goal))
+        timer = threading.Timer(7.0, s2.ctx.interrupt)
+        timer.start()
+        try:
+            r2 = s2.check()
+        except z3.Z3Exception:
+            r2 = z3.unknown
+        finally:
+            timer.cancel()
+        if r2 == z3.sat:
+            try:
+                return 'sat-weakened', backend, time.time() - t0, s2.model(), reason
+            except z3.Z3Exception:
+                pass
     return verdict, backend, time.time() - t0, model, reason
 
 
@@ -97,7 +120,7 @@ def verify_contract(contract, cfg, timeout_ms=None, max_paths=6000, case=None):
         solver_s += secs
         entry = {'name': ob.name, 'verdict': verdict, 'backend': backend, 'secs': round(secs, 4),
                  'kind': ob.meta.get('kind', ''), 'path': ''.join('T' if d else 'F' for d in key[0])}
-        if verdict == 'sat' and model is not None:
+        if verdict in ('sat', 'sat-weakened') and model is not None:
             # find a path result that extends this obligation's prefix, for the harness inputs
             res = None
             for dec, r in by_prefix.items():
